@@ -8,6 +8,7 @@ import random
 import hashlib
 import subprocess
 import tempfile
+import shutil
 
 from . import engine
 
@@ -33,9 +34,12 @@ def native_run(binary, harness, params, inputs, env_extra=None, timeout=20):
     with tempfile.NamedTemporaryFile("w", suffix=".json", delete=False, dir="/dev/shm" if os.path.isdir("/dev/shm") else None) as fh:
         json.dump({"params": list(params), "inputs": inputs}, fh)
         path = fh.name
+    scratch = None
     try:
         env = dict(os.environ)
         env["RUST_BACKTRACE"] = "0"
+        scratch = tempfile.mkdtemp(prefix="verif-scratch-", dir="/dev/shm" if os.path.isdir("/dev/shm") else None)
+        env["VERIF_SCRATCH"] = os.path.join(scratch, "d")
         if env_extra:
             env.update(env_extra)
         try:
@@ -49,6 +53,8 @@ def native_run(binary, harness, params, inputs, env_extra=None, timeout=20):
         return {"code": p.returncode, "obs": obs, "stderr": p.stderr.decode(errors="replace")[-1500:]}
     finally:
         os.unlink(path)
+        if scratch:
+            shutil.rmtree(scratch, ignore_errors=True)
 
 
 def load_known_findings():
